@@ -45,7 +45,8 @@ def r_reader_shape(chk, P, tier):
                 seq.append(("char", chr(const_of(c[2][1]))))
         frac = [c for c in calls if c[1] == "format::scan::nanosecond"]
         tz = [c for c in calls if c[1] == "format::scan::timezone_offset"]
-        seps = {chr(c[2]) for c in p.conds if c[0][0] == "switch" and not isinstance(c[2], tuple) and c[2] in (84, 116, 32) and any(is_call(x, suffix="<impl [T]>::first") for x in walk_terms(c[1]))}
+        seps = {chr(c[2]) for c in p.conds if c[0][0] == "switch" and not isinstance(c[2], tuple) and c[2] in (84, 116, 32)
+                and any(is_call(x, suffix="<impl str>::as_bytes") or is_call(x, suffix="<impl [T]>::first") or is_call(x, suffix="<impl [T]>::split_first") for x in walk_terms(c[1]))}
         ok = seq == want and len(tz) == 1 and len(seps) == 1 and seps <= {"T", "t", " "}
         if ok:
             t = tz[0]
@@ -60,7 +61,9 @@ def r_reader_shape(chk, P, tier):
                 ok = False
         if ok and frac:
             # the fraction is entered only after a '.' and stored by set_nanosecond
-            dots = [c for c in p.conds if c[0][0] == "switch" and is_call(c[1], suffix="starts_with") and const_of(unref(c[1][2][1])) in (".", (("char", 46),))]
+            dots = [c for c in p.conds if c[0][0] == "switch" and ((is_call(c[1], suffix="starts_with") and const_of(unref(c[1][2][1])) in (".", (("char", 46),)))
+                                                                   or (c[1][0] == "discr" and is_call(c[1][1], suffix="strip_prefix") and const_of(unref(c[1][1][2][1])) in (".", (("char", 46),))
+                                                                       and (c[2] == 1 or (isinstance(c[2], tuple) and 1 not in c[2][1]))))]
             ok = bool(dots) and any("set_nanosecond" in c[1] for c in calls)
         chk.expect(ok, "path %d" % i, "success path %d reads %s sep=%s frac=%d tz-args=%s" % (i, seq, sorted(seps), len(frac), [pp(a)[:20] for a in tz[0][2][2:]] if tz else None), loc=P.loc(PR))
     allseps = {chr(c[2]) for p in oks for c in p.conds if c[0][0] == "switch" and not isinstance(c[2], tuple) and c[2] in (84, 116, 32)}
